@@ -20,7 +20,22 @@ UnroutedUntouched(ev) ==
         \A a \in (Assets \ {Dist}) \ Routed(ev.args.route) :
           ev.obs.col[a] = prev.col[a] ++ CollectedInto(prev, a, PoolKids \cup VaultKids)>> >>
 
-EvChecks(ev) ==
+\* Beyond the listed properties: the collector's own Fees query (by factory) ought to say what the factory's children hold -
+\* pending and all-time, asset by asset: the sum of the children's own ledgers.  (Three-asset pools are children of the pool
+\* factory too; the query lists pairs only - the query-side face of known finding S15 - so the trio is judged apart.)
+FeesQueryX(o) ==
+  IF ~o.qfees.ok
+  THEN << <<"X.collector.fees-query-answers(all-children-healthy)", o.qfees.faulty>> >>
+  ELSE << <<"X.collector.fees-query(pools)=sum-of-the-pairs'-ledgers",
+             \A a \in Assets : o.qfees.pool[a] = SetSum([k \in PoolKids |-> o.pending[k][a]], PoolKids)
+                               /\ o.qfees.pool_all[a] = SetSum([k \in PoolKids |-> o.alltime[k][a]], PoolKids)>>,
+          <<"X.collector.fees-query(vaults)=sum-of-the-vaults'-ledgers",
+             \A a \in Assets : o.qfees.vault[a] = SetSum([k \in VaultKids |-> o.pending[k][a]], VaultKids)
+                               /\ o.qfees.vault_all[a] = SetSum([k \in VaultKids |-> o.alltime[k][a]], VaultKids)>>,
+          <<"X.collector.fees-query(pools)-includes-three-asset-pools",
+             \A a \in Assets : o.pending["trio"][a] = Zero \/
+                               o.qfees.pool[a] = SetSum([k \in PoolKids |-> o.pending[k][a]], PoolKids) ++ o.pending["trio"][a]>> >>
+EvChecks0(ev) ==
   CASE ev.ev = "newepoch" ->
          IF ev.res = "ok"
          THEN EpochChecks(prev, ev.obs, PoolKids \cup VaultKids) \o EpochLedger(ev) \o UnroutedUntouched(ev)
@@ -42,6 +57,8 @@ EvChecks(ev) ==
     [] ev.ev = "setflag" ->
          << <<"C10.take-switch.accepted-and-stored-as-set", ev.res = "ok" /\ ev.obs.take.active = ev.args.active>> >>
     [] OTHER -> << <<"TRACE.unknown-event", FALSE>> >>
+
+EvChecks(ev) == EvChecks0(ev) \o (IF ev.ev = "reset" THEN <<>> ELSE FeesQueryX(ev.obs))
 
 Report(ev, bad) ==
   IF bad = {} THEN TRUE
